@@ -195,16 +195,36 @@ def r1_ref_close(c, facts):
         c.ok(R, {'all_components': 'the name tested by maybe_inline is the name registered'})
     else:
         c.bad(R, 'all_components:tested-name-differs', 'all_components tests one name with maybe_inline and registers another')
-    # extra conditions guarding the insert (beyond the loop and the is_none test)
-    guards = 0
+    # nothing but the loop itself and the maybe_inline test decides whether a component is registered
+    extra = set()
+    nguards = 0
     for b, blk in ac.blocks():
         sw3 = blk['term']
-        if sw3['t'] == 'switch' and any(ac.dominates(x, ib) for x in ac.succ(b)) and not all(ac.dominates(x, ib) for x in ac.succ(b)):
-            guards += 1
-    if guards <= 3:
-        c.ok(R, {'conditions guarding the registration': guards})
+        if sw3['t'] != 'switch' or 'l' not in sw3['discr']:
+            continue
+        if not (any(ac.dominates(x, ib) for x in ac.succ(b)) and not all(ac.dominates(x, ib) for x in ac.succ(b))):
+            continue
+        nguards += 1
+        # the call that produces the tested value (not what its arguments derive from)
+        gs = MF.slice_back(ac, sw3['discr']['l'], aidx, through_calls=False)
+        gn = {P.strip(n).split('::')[-1] for n, _, _ in gs['calls']}
+        if gn and gn <= {'next', 'next_back'}:
+            continue                        # the loop
+        if 'maybe_inline' in gn:
+            continue
+        if gn and gn <= {'is_none', 'is_some'}:
+            inner = set()
+            for n_, t_, _ in gs['calls']:
+                for a_ in t_['args']:
+                    if 'l' in a_:
+                        inner |= {P.strip(x).split('::')[-1] for x, _, _ in MF.slice_back(ac, a_['l'], aidx, through_calls=False)['calls']}
+            if 'maybe_inline' in inner:
+                continue
+        extra |= (gn - {'iter', 'into_iter', 'deref', 'as_ref', 'clone', 'borrow'}) or {'<condition>'}
+    if extra:
+        c.bad(R, 'all_components:extra-filter:%s' % ','.join(sorted(extra)), 'the registration of a component also depends on %s: a component that some $ref points at can be left out (only maybe_inline may decide)' % sorted(extra))
     else:
-        c.bad(R, 'all_components:extra-filter', 'the registration of a component is guarded by %d conditions (expected: loop exit, pattern, is_none)' % guards)
+        c.ok(R, {'conditions guarding the registration': nguards, 'all': 'loop / maybe_inline'})
 
 
 def r2_status_dom(c, facts):
